@@ -51,8 +51,9 @@ structure Loc where
 /-- `interrogationState` (without condition variable, node identity and scope) -/
 structure IState where
   cmd : Cmd
-  /-- `is.node.Token.Lline` -/
-  line : Nat
+  /-- position of `is.node`: `Token.Lsource` and `Token.Lline` (both are compared: a node on the same
+  line NUMBER of another source is on a different line) -/
+  pos : Loc
   /-- `len(is.stepOutStack)` — the only thing the code reads from that stack -/
   soDepth : Nat
   /-- `is.err != nil` -/
@@ -146,7 +147,8 @@ structure Run where
   susp : List Loc
   /-- `runtime.Goexit()` was executed -/
   killed : Bool
-  /-- Go would panic (`VisitStepOutState` with an empty call stack) -/
+  /-- Go would panic. No visit function sets it any more (`never_crashes`): the only case was
+  `VisitStepOutState` with an empty call stack, now guarded. -/
   crashed : Bool
   deriving DecidableEq, Repr, Inhabited
 
@@ -157,7 +159,7 @@ def park (r : Run) (l : Loc) : Run :=
   | a :: rest => { r with d := applyAct r.d a, script := rest, susp := r.susp ++ [l] }
 
 def freshState (l : Loc) : IState :=
-  { cmd := .stop, line := l.line, soDepth := 0, err := false, running := false }
+  { cmd := .stop, pos := l, soDepth := 0, err := false, running := false }
 
 /-- `VisitState`, branch "thread is not interrogated" -/
 def visitFresh (r : Run) (l : Loc) : Run :=
@@ -172,20 +174,20 @@ def visitState (r : Run) (l : Loc) : Run :=
   | some is =>
     match is.cmd with
     | .resume =>
-      if is.line ≠ l.line then visitFresh { r with d := { r.d with is := none } } l else r
+      if is.pos ≠ l then visitFresh { r with d := { r.d with is := none } } l else r
     | .kill =>
-      if is.line ≠ l.line then { r with d := { r.d with is := none }, killed := true } else r
+      if is.pos ≠ l then { r with d := { r.d with is := none }, killed := true } else r
     | .stepOut =>
       -- stepping over / out of a call: only an active break point on a NEW line stops the thread;
       -- `is.node` follows the thread so that "new line" means "other than the line just executed"
-      if is.line ≠ l.line then
+      if is.pos ≠ l then
         if bpActive r.d.bps l then
-          park { r with d := { r.d with is := some { is with line := l.line, running := false } } } l
-        else { r with d := { r.d with is := some { is with line := l.line } } }
+          park { r with d := { r.d with is := some { is with pos := l, running := false } } } l
+        else { r with d := { r.d with is := some { is with pos := l } } }
       else r
     | _ => -- Stop, StepIn, StepOver
-      if is.line ≠ l.line ∨ is.cmd = Cmd.stop then
-        park { r with d := { r.d with is := some { is with line := l.line, running := false } } } l
+      if is.pos ≠ l ∨ is.cmd = Cmd.stop then
+        park { r with d := { r.d with is := some { is with pos := l, running := false } } } l
       else r
 
 /-- the `switch is.cmd` of `VisitStepInState` -/
@@ -211,14 +213,14 @@ def exitCmd (is : IState) (depth : Nat) : IState :=
 
 /-- `VisitStepOutState(node, vs, tid, soErr)`: after the call on position `l` returned (`err`: with an error) -/
 def stepOutState (r : Run) (l : Loc) (err : Bool) : Run :=
-  if r.d.depth = 0 then { r with crashed := true }
+  if r.d.depth = 0 then r   -- the debugger was attached while this call was running: nothing to pop
   else
     let depth := r.d.depth - 1
     let d := { r.d with depth := depth }
     if d.breakOnError && err then
       let (is, d) := match d.is with
         | none => (freshState l, { d with breakOnStart := false })
-        | some is => ({ is with line := l.line, running := false }, d)
+        | some is => ({ is with pos := l, running := false }, d)
       if is.err then
         -- the state is marked "not running" but the thread does not wait
         { r with d := { d with is := some is } }
@@ -233,7 +235,10 @@ def stepOutState (r : Run) (l : Loc) (err : Bool) : Run :=
 def threadFinished (d : Dbg) : Dbg :=
   match d.is with
   | none => { d with depth := 0 }
-  | some is => if is.running then d else { d with is := none, depth := 0 }
+  | some is =>
+    -- a state that is running is kept (a step command carries over to the thread's next execution)
+    -- unless it only says "resumed: do not stop again on this line" — that ends with the execution
+    if is.running && is.cmd != .resume then d else { d with is := none, depth := 0 }
 
 /-- one element of the abstract visit trace of a thread -/
 inductive Ev where
